@@ -127,6 +127,14 @@ static void DecodeDATA_7720(Word Index) {
             if (mFirstPassUnknown(t.Flags) && (t.Typ == TempInt)) {
                 t.Contents.Int &= MaxV;
             }
+            if (SetMaxCodeLen(
+                        4
+                        * (CodeLen + 1
+                           + ((t.Typ == TempString) ? t.Contents.str.len : 0)))) {
+                WrError(ErrNum_CodeOverflow);
+                OK = False;
+                break;
+            }
 
             switch (t.Typ) {
             case TempString: {
